@@ -40,6 +40,7 @@ def parseAction (s : String) : Option Action :=
   | ["T"] => some .tooLong
   | ["CT", c] => do pure (.chTooLong (← c.toNat?))
   | ["W"] => some .wait
+  | ["F"] => some .wait
   | ["sl", n] => do pure (.slice (← n.toNat?))
   | ["csl", n] => do pure (.chSlice (← n.toNat?))
   | ["TL"] => some .tlNext
